@@ -12,17 +12,22 @@ Open Scope list_scope.
 (* ---- C++ base clause ---- *)
 Inductive tok := TColon | TComma | TPublic | TId (s : string).
 
-(* idlc_codegen_cpp/src/interface/mod.rs: every ancestor is pushed as "I<name> " and the whole
-   is prefixed with ": public " (EmitFacts.cpp_base_sep_is_space); a comma-separated emitter
-   would push ", public I<name>" for the later ones *)
-Definition cpp_base_clause (ancestors : list string) : list tok :=
+(* idlc_codegen_cpp/src/interface/mod.rs.  The emitter either names only the immediate base
+   (EmitFacts.cpp_base_only_immediate) or pushes every ancestor as "I<name> " after one
+   ": public " (EmitFacts.cpp_base_sep_is_space, the pinned upstream behaviour).  [ancestors]:
+   nearest first. *)
+Definition base_clause_spaced (ancestors : list string) : list tok :=
   match ancestors with
   | [] => []
-  | a :: r =>
-      TColon :: TPublic :: TId ("I" ++ a)%string ::
-      flat_map (fun x => if cpp_base_sep_is_space then [TId ("I" ++ x)%string]
-                         else [TComma; TPublic; TId ("I" ++ x)%string]) r
+  | a :: r => TColon :: TPublic :: TId ("I" ++ a)%string :: map (fun x => TId ("I" ++ x)%string) r
   end.
+Definition base_clause_immediate (ancestors : list string) : list tok :=
+  match ancestors with
+  | [] => []
+  | a :: _ => [TColon; TPublic; TId ("I" ++ a)%string]
+  end.
+Definition cpp_base_clause (ancestors : list string) : list tok :=
+  if cpp_base_only_immediate then base_clause_immediate ancestors else base_clause_spaced ancestors.
 
 (* the grammar of a base clause: ':' base-specifier (',' base-specifier)*, a base specifier
    being an optional 'public' and a class name *)
@@ -52,13 +57,13 @@ Definition id (s : string) : ident := list_ascii_of_string s.
 
 Inductive lang := LC | LCpp | LRust | LJava.
 (* how a parameter travels, as far as naming is concerned *)
-Inductive pkind := KData | KObject.
+Inductive pkind := KData | KObject | KMethod.   (* KMethod: the name of a method *)
 
 (* locals and parameters of the generated method bodies that do not come from the IDL *)
 Definition template_locals (l : lang) : list ident :=
   map id match l with
-         | LC => ["self"; "a"; "result"; "me"; "r"; "k"; "op"]
-         | LCpp => ["a"; "result"; "invoke"; "r"; "k"; "op"]
+         | LC => ["self"; "a"; "result"; "me"; "r"; "k"; "op"; "bi"; "bo"; "i"; "o"; "func"; "prefix"; "type"]
+         | LCpp => ["a"; "result"; "invoke"; "r"; "k"; "op"; "bi"; "bo"; "i"; "o"]
          | LRust => ["args"; "cx"]
          | LJava => ["bi"; "bo"; "boSizes"; "oi"; "oo"; "mObj"; "methodID"; "bundleIn"; "bundleOut"; "i"]
          end%string.
@@ -72,6 +77,9 @@ Definition generated (l : lang) (k : pkind) (name : ident) : list ident :=
   match l, k with
   | LC, KData | LCpp, KData => map (fun s => name ++ s) suffixes
   | LC, KObject | LCpp, KObject => [name]
+  | LCpp, KMethod => [name]          (* called unqualified inside ImplBase::invoke *)
+  | LC, KMethod => [name]            (* pasted after the macro parameter: prefix##name *)
+  | _, KMethod => []                 (* called through a receiver (Rust, Java) *)
   | LRust, _ => [name]
   | LJava, _ => name :: map (fun s => name ++ s) suffixes
   end.
